@@ -167,11 +167,88 @@ pub fn triggers(src: &str, root: &SyntaxNode) -> Vec<&'static str> {
             // so typstyle keeps a blank before it -- but only for positional arguments, not when
             // the embedded code sits in a named or spread argument (`$f(..#g ;a)$` -> `$f(..#g; a)$`).
             K::Args if f.node.children().any(|c| c.kind() == K::Semicolon) => {
-                let hashed_special = syn::any_node(f.node, &mut |c| {
-                    matches!(c.kind(), K::Named | K::Spread) && c.children().any(|x| x.kind() == K::Hash || syn::any_node(x, &mut |y| y.kind() == K::Hash))
-                });
+                // (generous: any embedded code inside a 2-D argument list; `#x;;` loses a semicolon too)
+                let hashed_special = in_math[i] && syn::any_node(f.node, &mut |c| c.kind() == K::Hash);
                 if hashed_special {
                     add("R24");
+                }
+            }
+            // R29: a row of 2-D math arguments that is laid out one item per line (it holds a line
+            // comment, or its first blank holds a line break) gets a trailing comma, i.e. one more
+            // (empty) cell: `$mat(3, // c<nl>4; 1)$` -> `3, // c<nl>4,; 1`.
+            K::Array if in_math[i] && f.parent == Some(K::Args) => {
+                let has_line_comment = f.node.children().any(|c| c.kind() == K::LineComment);
+                let first_space_nl = f.node.children().find(|c| c.kind() == K::Space).is_some_and(|c| syn::has_nl(c.text()));
+                if has_line_comment || first_space_nl {
+                    add("R29");
+                }
+            }
+            // R28: blanks inside an attachment are dropped, also between two groups of primes
+            // (`$f' '^2$` -> `$f''^2$`).
+            K::MathAttach if f.node.children().filter(|c| c.kind() == K::MathPrimes).count() >= 2 => add("R28"),
+            // R21: a list / enum / term item whose body (or term) is empty: the blank after the
+            // marker is dropped and the marker becomes text (`[- ]` -> `[-]`).
+            K::ListItem | K::EnumItem | K::TermItem => {
+                let empty = f
+                    .node
+                    .children()
+                    .filter(|c| c.kind() == K::Markup)
+                    .any(|m| m.children().all(|x| x.kind() == K::Space || syn::is_comment(x.kind())));
+                let no_markup = !f.node.children().any(|c| c.kind() == K::Markup);
+                if empty || no_markup {
+                    add("R21");
+                }
+                // R22: an item whose body starts with another item on the same line (`+ - x`):
+                // continuation lines are re-indented by tab_spaces, which for tab_spaces >= 3
+                // moves them into the inner item.
+                let nested_same_line = f.node.children().filter(|c| c.kind() == K::Markup).any(|m| {
+                    m.children().find(|x| x.kind() != K::Space || syn::has_nl(x.text())).is_some_and(|x| {
+                        matches!(x.kind(), K::ListItem | K::EnumItem | K::TermItem)
+                    })
+                });
+                if nested_same_line {
+                    add("R22");
+                }
+            }
+            // R18: the blank at the inner edge of a content block / strong / emph body may be turned
+            // into a line break; text that looks like a list, enum, term or heading marker then
+            // becomes one (`#[ = a<newline>b ]` -> a heading).
+            K::Markup if matches!(f.parent, Some(K::ContentBlock | K::Strong | K::Emph)) => {
+                // R31: an item that starts on the line of the opening bracket (`#[+ f<nl><nl>x]`): the
+                // following lines are re-indented by tab_spaces, which for tab_spaces >= 3 is deeper
+                // than the marker's column, so they become part of the item.
+                if f.parent == Some(K::ContentBlock) {
+                    let first = f.node.children().find(|c| c.kind() != K::Space || syn::has_nl(c.text()));
+                    if first.is_some_and(|c| matches!(c.kind(), K::ListItem | K::EnumItem | K::TermItem)) {
+                        add("R31");
+                    }
+                }
+                // R30: list / enum / term items inside strong or emphasis: the edge blanks of the
+                // body are dropped or turned into line breaks inconsistently (`* #[]<nl>2. x<nl>*`
+                // loses its leading blank).
+                if f.parent != Some(K::ContentBlock)
+                    && f.node.children().any(|c| matches!(c.kind(), K::ListItem | K::EnumItem | K::TermItem))
+                {
+                    add("R30");
+                }
+                // R4: a body holding nothing but comments gains blanks (`a#[/* c */]b` renders "a b")
+                if f.node.children().len() > 0 && f.node.children().all(|c| syn::is_comment(c.kind())) {
+                    add("R4");
+                }
+                let mut kids = f.node.children();
+                if kids.next().is_some_and(|c| c.kind() == K::Space) {
+                    // first thing after the edge blank (skipping comments and blanks)
+                    let first = f.node.children().find(|c| c.kind() != K::Space && !syn::is_comment(c.kind()));
+                    if let Some(c) = first {
+                        if c.kind() == K::Text {
+                            let w = c.text().split(' ').next().unwrap_or("");
+                            let marker = w == "-" || w == "+" || w == "/" || (!w.is_empty() && w.chars().all(|ch| ch == '='))
+                                || (w.len() > 1 && w.ends_with('.') && w[..w.len() - 1].chars().all(|ch| ch.is_ascii_digit()));
+                            if marker {
+                                add("R18");
+                            }
+                        }
+                    }
                 }
             }
             // R23: blanks around `_` in math are dropped; after embedded code the underscore then
